@@ -34,7 +34,9 @@ MSGS = ['bad', '', 'a: b', 'l1\nl2', 'x ... y', 'it is 3.5',
         # a message that quotes another traceback
         'worker failed:\nTraceback (most recent call last):\nKeyError: 1', 'see Traceback (most recent call last): above',
         # a report with many fields (a want may elide every value)
-        'f1=10 f2=20 f3=30 f4=40 f5=50 f6=60 f7=70 f8=80 f9=90 f10=100 f11=110 f12=120 done']
+        'f1=10 f2=20 f3=30 f4=40 f5=50 f6=60 f7=70 f8=80 f9=90 f10=100 f11=110 f12=120 done',
+        # a long report with paragraphs (a want spells the empty lines <BLANKLINE>)
+        '\n\n'.join('paragraph %d' % i for i in range(1, 13))]
 
 LINE_SYMS = [HDR, HDR + '  ', HDR + ' junk', 'Traceback (innermost last):', '  File "x", line 1, in f', 'Err: msg',
              'mod.Err: a: b', '...', '', '    word', '_x', '1x', '-x', 'Traceback (most recent call last)']
@@ -64,6 +66,11 @@ def want_forms(printed, msg, cls):
     }
     if printed.startswith('pkg.mod.'):
         forms['unqualified'] = HDR + '\n' + ll.replace('pkg.mod.', '', 1)
+    if '\n\n' in ll:
+        # an empty line ends a want: such a message can only be wanted with the marker
+        bl = HDR + '\n' + '\n'.join(l if l.strip() else '<BLANKLINE>' for l in ll.split('\n'))
+        return {'none': None, 'blanklines': bl, 'nontraceback': 'some expected output',
+                'wrongmsg': bl.replace('paragraph 11', 'paragraph eleven')}
     if msg.count('=') >= 10:
         # every value elided: as many wildcards as fields
         import re as _re
@@ -84,7 +91,7 @@ def expected(form, flags, cls, msg):
         return None        # the message itself holds a header line: the want IS a traceback block (for the quoted exception); correspondence only
     if form in ('none', 'nontraceback', 'finalonly'):
         return ('fail', 'exception')
-    if form in ('exact', 'stack'):
+    if form in ('exact', 'stack', 'blanklines'):
         return ('pass', None)
     if form == 'dots':
         return ('pass', None)          # the stack between header and final line is never compared
